@@ -437,7 +437,15 @@ def _build_block_stacks(
         if next_template:
             base = next_template
 
-    assert base
+    if base is None:
+        # An `extends` tag that is rendered from a template it does not belong to,
+        # in the body of a macro that was defined in an included template, for example.
+        raise TemplateInheritanceError(
+            "unexpected extends tag, it is not part of the template being rendered",
+            token=None,
+            template_name=template.name,
+        )
+
     return base
 
 
@@ -492,7 +500,15 @@ async def _build_block_stacks_async(
         if next_template:
             base = next_template
 
-    assert base
+    if base is None:
+        # An `extends` tag that is rendered from a template it does not belong to,
+        # in the body of a macro that was defined in an included template, for example.
+        raise TemplateInheritanceError(
+            "unexpected extends tag, it is not part of the template being rendered",
+            token=None,
+            template_name=template.name,
+        )
+
     return base
 
 
